@@ -20,14 +20,14 @@ RULE = ('multi-reference inputs (1-4 references, tandem repeats in 50 %, so seve
         'second-pass record in the all-mode run. Non-trivial = query with >= 2 non-empty candidates; distinct by hash.')
 ASSUMPTIONS = ['exact ties in confidence between different candidates are counted and only the confidence is compared',
                'ties of primary peak scores at the peaksCount cut are skipped for the seed-origin clause']
-MINIMUMS = {'first-pass-queries-judged': {'quick': 900, 'thorough': 15000}, 'queries-with-2+-nonempty-candidates': {'quick': 300, 'thorough': 4000},
-            'second-pass-queries-judged': {'quick': 100, 'thorough': 1500}, 'best-mode-runs': {'quick': 100, 'thorough': 1500},
-            'seed-origin-checked': {'quick': 1000, 'thorough': 12000},
-            'independent-seed-scans': {'quick': 800, 'thorough': 10000}}
+MINIMUMS = {'first-pass-queries-judged': {'quick': 600, 'thorough': 15000}, 'queries-with-2+-nonempty-candidates': {'quick': 300, 'thorough': 4000},
+            'second-pass-queries-judged': {'quick': 100, 'thorough': 1500}, 'best-mode-runs': {'quick': 60, 'thorough': 1500},
+            'seed-origin-checked': {'quick': 600, 'thorough': 12000},
+            'independent-seed-scans': {'quick': 500, 'thorough': 10000}}
 
 
 def plan(tier, seed):
-    n, c = (16, 7) if tier == 'quick' else (64, 30)
+    n, c = (16, 6) if tier == 'quick' else (64, 30)
     return [{'name': 's%d' % i, 'kind': 'e2e', 'seed': seed, 'shard': i, 'cases': c} for i in range(n)]
 
 
